@@ -6,6 +6,7 @@ O2 ordered fan-in: pool results consumed in submission order; per-chromosome fil
 O3 no process-wide state carried between the tasks of one worker
 """
 import ast
+import re
 
 from ..engine.program import AnalysisError, dotted, src, walk_no_nested, call_name, shape
 from ..engine import setorder
@@ -32,6 +33,27 @@ TRIAGE = [
     ("src/long_read_counter.py", "AssignedFeatureCounter.add_read_info", "element selected by position", "list($)[0]",
      "benign: inside the is_unique() branch the feature set is a singleton (assignment-type invariant; recorded as assumption)"),
 ]
+
+
+def _helper_of(prog, rel, qual, f):
+    """f is a helper extracted from the triaged function: a function of the same module that `qual` calls (directly or through one more
+    helper) and that nothing else calls."""
+    owner = prog.try_func(rel, qual)
+    if owner is None or getattr(f, "_module", None) is None or f._module.rel != rel:
+        return False
+    mod = prog.module(rel)
+
+    def callees(g):
+        return {(call_name(c) or "").split(".")[-1] for c in ast.walk(g) if isinstance(c, ast.Call)}
+    level1 = callees(owner)
+    if f.name in level1:
+        reach = True
+    else:
+        reach = any(f.name in callees(h) for n_, h in mod.functions.items() if h.name in level1 and h is not owner)
+    if not reach:
+        return False
+    others = [g for g in mod.functions.values() if g is not f and g is not owner and f.name in callees(g) and g.name not in level1]
+    return not others
 
 
 def verify_triage_side_conditions(prog, ctx):
@@ -86,9 +108,10 @@ def o1(prog, ctx):
     used = set()
     for m, q, f, node, kind, origin in taint.sinks:
         text = shape(f, node).replace("\n", " ")       # local variable names do not matter
+        text = re.sub(r"(?<![\w.$])[A-Za-z_]\w*(?=\.read_groups\b)", "$", text)     # ... nor whether the grouper is a local or a parameter
         hit = None
         for i, (tm, tq, tk, tc, why) in enumerate(TRIAGE):
-            if tm == m.rel and tq == q and kind.startswith(tk) and text.startswith(tc):
+            if tm == m.rel and (tq == q or _helper_of(prog, tm, tq, f)) and kind.startswith(tk) and text.startswith(tc):
                 hit = i
         if hit is not None:
             used.add(hit)
@@ -126,12 +149,19 @@ def o2(prog, ctx):
                 n += 1
                 ctx.ok("O2", "%s:%d" % (m.rel, c.lineno), "%s: pool results consumed through map() (submission order)" % q)
     ctx.floor("O2", "ProcessPoolExecutor.map call sites", n, 1)
-    mf = prog.func("src/file_utils.py", "merge_files")
+    mf = prog.func_inlined("src/file_utils.py", "merge_files")           # helpers of the module expanded in place
     # the loop that copies the per-chromosome parts must run over a sequence sorted with the natural (digit-aware) key
-    copy_loops = [l for l in walk_no_nested(mf) if isinstance(l, ast.For) and any(isinstance(c, ast.Call) and (call_name(c) or "").endswith("copyfileobj")
-                                                                                   for c in ast.walk(l))]
+    def _copies(l):
+        return any(isinstance(c, ast.Call) and ((call_name(c) or "").endswith("copyfileobj") or (isinstance(c.func, ast.Attribute)
+                   and c.func.attr in ("write", "writelines"))) for c in ast.walk(l)) and \
+            any(isinstance(c, ast.Call) and (call_name(c) or "").split(".")[-1] == "open" for c in ast.walk(l))
+    copy_loops = [l for l in walk_no_nested(mf) if isinstance(l, ast.For) and _copies(l)
+                  and not any(l2 is not l and isinstance(l2, ast.For) and _copies(l2) and any(x is l for x in ast.walk(l2)) for l2 in walk_no_nested(mf))]
     verdict = "no loop copying the parts found"
     okm = False
+    if len(copy_loops) != 1:
+        ctx.undecided("O2", mf, "merge_files", "found %d loops that open and copy the per-chromosome parts (helpers inlined), expected one" % len(copy_loops))
+        okm = None
     if len(copy_loops) == 1:
         it = copy_loops[0].iter
         if isinstance(it, ast.Call) and call_name(it) == "enumerate" and it.args:
@@ -156,9 +186,11 @@ def o2(prog, ctx):
             if isinstance(key, ast.Name):
                 kf = prog.modules[mf._module.rel].functions.get(key.id)
                 ktext = src(kf) if kf is not None else ktext
-            okm = "isdigit" in ktext and "lower" in ktext
+            okm = ("isdigit" in ktext and "lower" in ktext) or ("\\d" in ktext and "int(" in ktext and "lower" in ktext)
             verdict = "merge order key is not the natural (digit-aware) order" if not okm else "ok"
-    if not okm:
+    if okm is None:
+        pass
+    elif not okm:
         ctx.fail("O2", copy_loops[0] if copy_loops else mf, "merge_files", "order of the merged parts", "per-chromosome files are not concatenated "
                  "in the natural order of their names (%s): the merged order would follow the chromosome order of the reference / the task "
                  "schedule" % verdict)
@@ -179,8 +211,9 @@ def o2(prog, ctx):
             last = (call_name(call) or "").split(".")[-1]
             if last == "map":
                 return True
-            h = dp_meths.get(last)
-            if h is not None and isinstance(call.func, ast.Attribute) and dotted(call.func.value) == "self":
+            h = dp_meths.get(last) if isinstance(call.func, ast.Attribute) and dotted(call.func.value) == "self" else \
+                (prog.module(DSP).functions.get(last) if isinstance(call.func, ast.Name) else None)
+            if h is not None:
                 rets = [r for r in walk_no_nested(h) if isinstance(r, ast.Return)]
                 return bool(rets) and all(isinstance(r.value, ast.Call) and (call_name(r.value) or "").split(".")[-1] == "map" for r in rets)
             return False
@@ -188,7 +221,7 @@ def o2(prog, ctx):
                      and yields_map(st_.value) for t in st_.targets if isinstance(t, ast.Name)}
         loops = [l for l in walk_no_nested(f) if isinstance(l, ast.For) and isinstance(l.iter, ast.Name) and l.iter.id in res_names]
         if len(loops) != 1:
-            ctx.fail("O2", f, q, "for ... in results", "results of the pool are not consumed by a single loop")
+            ctx.undecided("O2", f, q, "found %d loops over the results of the (pool) map, expected one" % len(loops))
         else:
             ctx.ok("O2", "%s:%d" % (DSP, loops[0].lineno), "%s consumes results sequentially in submission order" % q)
 
